@@ -14,6 +14,7 @@ class FakeNet:
         self.log = []
         self.set_cookie = set_cookie
         self.n = 0
+        self.moved = set()       # hosts whose profile advertises the moved service path from now on
 
     def open(self, handler, req):
         self.n += 1
@@ -27,10 +28,17 @@ class FakeNet:
         if req.data and b"<PROFRQ>" in req.data:
             # a profile request: answer with a profile that advertises this very URL for every service
             from contracts.client_history import profile_bytes, T0
-            body = profile_bytes(T0, url=req.full_url)
+            # (after "moved": the same profile date as before, but another service path on the same host)
+            adv = req.full_url if req.host not in self.moved else req.full_url.rstrip("/") + "/v2"
+            if req.full_url.endswith("/v2"):
+                adv = req.full_url
+            body = profile_bytes(T0, url=adv)
         r = urllib.response.addinfourl(io.BytesIO(body), msg, req.full_url, 200)
         r.msg = "OK"
         return r
+
+
+UA = {"A": "agent-A", "B": ""}
 
 
 def run_scenario(persist, set_cookie, seq):
@@ -46,13 +54,16 @@ def run_scenario(persist, set_cookie, seq):
     olddir = config.DATADIR
     config.DATADIR = Path(tmp) / "ofxtools"
     try:
-        clients = {c: OFXClient(f"https://bank-{c.lower()}.example/ofx", userid=f"user{c}", org=f"ORG{c}", fid="1", persist_cookies=persist, useragent=f"agent-{c}") for c in "AB"}
+        # client B is configured with a blank user agent: then that is what goes out (not a library default of some layer below)
+        clients = {c: OFXClient(f"https://bank-{c.lower()}.example/ofx", userid=f"user{c}", org=f"ORG{c}", fid="1", persist_cookies=persist, useragent=UA[c]) for c in "AB"}
         results = []
         for c, kind in seq:
             cl = clients[c]
             before = len(net.log)
-            if kind == "full":
+            if kind in ("full", "moved"):
                 # with the profile look-up: a profile request, then the request itself (same host: the profile says so)
+                if kind == "moved":
+                    net.moved.add(f"bank-{c.lower()}.example")
                 r = cl.request_accounts(f"secret{c}", DT)
             else:
                 r = cl.request_accounts(f"secret{c}", DT, dryrun=(kind == "dry"), skip_profile=True)
@@ -70,25 +81,33 @@ def check_scenario(it, fn, a):
     problems = []
     li = 0
     seen_cookie = {"A": None, "B": None}
+    moved_seen = set()
     for c, kind, nreq, body in results:
+        if kind == "moved":
+            moved_seen.add(f"moved-{c}")
         if kind == "dry":
             if nreq != 0:
                 problems.append(f"dry run of {c} sent {nreq} requests")
             if not body.startswith((b"OFXHEADER", b"<?xml")):
                 problems.append("dry run did not return the request")
             continue
-        if kind == "full":
+        if kind in ("full", "moved"):
             # one profile request (cached afterwards: the scripted server sends the same date, so later calls ask again
             # and are told the same) + the request itself; every one of them replays the newest cookie of this client
             if nreq != 2:
                 problems.append(f"{c}: {nreq} requests for a call with profile look-up (expected 2)")
-            for _ in range(nreq):
+            for k_ in range(nreq):
                 r = log[li]; li += 1
+                if k_ == 1:
+                    # the request itself goes where the profile just received says - and only there
+                    want_url = urls[c] + ("/v2" if f"moved-{c}" in moved_seen else "")
+                    if r["url"] != want_url:
+                        problems.append(f"{c}: the request went to {r['url']}, the institution's profile advertises {want_url}")
                 expect = seen_cookie[c] if (persist and set_cookie) else None
                 if (r["cookie"] or None) != expect:
                     problems.append(f"{c}: Cookie {r['cookie']!r}, expected {expect!r} (request {li} of the sequence)")
-                if r["headers"].get("user-agent") != f"agent-{c}":
-                    problems.append(f"{c}: user agent {r['headers'].get('user-agent')!r}")
+                if (r["headers"].get("user-agent") or "") != UA[c]:
+                    problems.append(f"{c}: user agent {r['headers'].get('user-agent')!r}, configured {UA[c]!r}")
                 if set_cookie:
                     seen_cookie[c] = f"sid=c{li}-bank-{c.lower()}.example"
             continue
@@ -99,8 +118,8 @@ def check_scenario(it, fn, a):
         r = log[li]; li += 1
         if r["method"] != "POST" or r["url"] != urls[c]:
             problems.append(f"{c}: {r['method']} {r['url']}")
-        if r["headers"].get("content-type") != "application/x-ofx" or "application/x-ofx" not in r["headers"].get("accept", "") or r["headers"].get("user-agent") != f"agent-{c}":
-            problems.append(f"{c}: headers {r['headers']}")
+        if r["headers"].get("content-type") != "application/x-ofx" or "application/x-ofx" not in r["headers"].get("accept", "") or (r["headers"].get("user-agent") or "") != UA[c]:
+            problems.append(f"{c}: headers {r['headers']} (configured user agent {UA[c]!r})")
         if not r["body"] or f"secret{c}".encode() not in r["body"]:
             problems.append(f"{c}: body is not the serialized request")
         other = "B" if c == "A" else "A"
@@ -117,7 +136,7 @@ def check_scenario(it, fn, a):
 def cases(tier):
     n = 4 if tier == "thorough" else 3
     out = []
-    steps = [(c, k) for c in "AB" for k in ("post", "dry", "full")]
+    steps = [(c, k) for c in "AB" for k in ("post", "dry", "full")] + [("A", "moved")]
     for persist in (True, False):
         for sc in (True, False):
             for ln in range(1, n + 1):
